@@ -36,6 +36,9 @@ func SupportedAsymmetricAlgorithms() []string {
 // EncryptPublicKey encrypts a message using a public key and the specified algorithm.
 // Note that "associatedData" is ignored if the cipher does not support labels/AAD.
 func EncryptPublicKey(plaintext []byte, algorithm string, key jwk.Key, associatedData []byte) (ciphertext []byte, err error) {
+	if key == nil {
+		return nil, ErrKeyTypeMismatch
+	}
 	// Ensure we are using a public key
 	key, err = key.PublicKey()
 	if err != nil {
@@ -84,6 +87,9 @@ func encryptPublicKeyRSAOAEP(plaintext []byte, key jwk.Key, hash crypto.Hash, la
 // DecryptPrivateKey decrypts a message using a private key and the specified algorithm.
 // Note that "associatedData" is ignored if the cipher does not support labels/AAD.
 func DecryptPrivateKey(ciphertext []byte, algorithm string, key jwk.Key, associatedData []byte) (plaintext []byte, err error) {
+	if key == nil {
+		return nil, ErrKeyTypeMismatch
+	}
 	switch algorithm {
 	case Algorithm_RSA1_5:
 		return decryptPrivateKeyRSAPKCS1v15(ciphertext, key)
